@@ -4,6 +4,7 @@ package verifharness
 import (
 	"encoding/json"
 	"fmt"
+	"io"
 	"os"
 	"path/filepath"
 	"reflect"
@@ -14,6 +15,8 @@ import (
 	"testing"
 	"time"
 
+	"github.com/corazawaf/coraza/v3"
+	"github.com/corazawaf/coraza/v3/debuglog"
 	"github.com/corazawaf/coraza/v3/internal/corazawaf"
 	"github.com/corazawaf/coraza/v3/internal/seclang"
 	"pgregory.net/rapid"
@@ -26,6 +29,8 @@ type C06Case struct {
 	PerG       int      `json:"per_goroutine"`
 	Builders   int      `json:"builders"`
 	Procs      int      `json:"gomaxprocs"`
+	// PresetLogger: the WAF is given a debug logger that already carries context fields (logger.With(...)), at debug level
+	PresetLogger bool `json:"preset_logger,omitempty"`
 }
 
 func genC06(t *rapid.T) *C06Case {
@@ -34,6 +39,7 @@ func genC06(t *rapid.T) *C06Case {
 	c.PerG = rapid.IntRange(5, 40).Draw(t, "perg")
 	c.Builders = rapid.IntRange(0, 3).Draw(t, "builders")
 	c.Procs = rapid.SampledFrom([]int{2, 4, 16}).Draw(t, "procs")
+	c.PresetLogger = rapid.IntRange(0, 2).Draw(t, "presetlogger") == 0
 	lines := []string{"SecRuleEngine On", "SecRequestBodyAccess On", "SecAuditEngine On", "SecAuditLogParts ABHKZ", "SecAuditLogFormat JSON"}
 	if rapid.IntRange(0, 2).Draw(t, "auditfault") == 0 {
 		// the concurrent writer with an index file that refuses every write (/dev/full): each transaction's logging
@@ -146,7 +152,15 @@ func checkC06Body(c *C06Case) Result {
 
 	old := runtime.GOMAXPROCS(c.Procs)
 	defer runtime.GOMAXPROCS(old)
-	shared, err := newWAF(conf)
+	var shared coraza.WAF
+	if c.PresetLogger {
+		// a logger that carries context fields of its own: every transaction derives its logger from it
+		lg := debuglog.Default().WithOutput(io.Discard).WithLevel(debuglog.LevelDebug).
+			With(debuglog.Str("service", strings.Repeat("s", 900)), debuglog.Str("instance", "i-1"))
+		shared, err = coraza.NewWAF(coraza.NewWAFConfig().WithDirectives(conf).WithDebugLogger(lg))
+	} else {
+		shared, err = newWAF(conf)
+	}
 	if err != nil {
 		res.Fail = failf("configuration rejected: %v", err)
 		return res
@@ -296,6 +310,9 @@ func checkC06Body(c *C06Case) Result {
 	}
 	if c.Builders > 0 {
 		res.Labels = append(res.Labels, "concurrent-waf-builds")
+	}
+	if c.PresetLogger {
+		res.Labels = append(res.Labels, "logger-with-context-fields")
 	}
 	res.NonTrivial = maxInflight >= 2
 	return res
